@@ -125,6 +125,7 @@ func (p *pool) Store(v wire) {
 		vhook("pool.store.keep", p, 0, 0)
 	} else if dp, ok := v.(*pipe); ok && wire(dp) != p.dead && atomic.LoadInt32(&dp.state) == 3 {
 		// a placeholder Acquire made for a done context never took a slot, so it must not release one
+		vhook("pool.store.placeholder", p, 0, 0)
 	} else {
 		p.size--
 		v.Close()
